@@ -2,7 +2,7 @@
 # evaluates the round-7 seeds (/tmp/seed7-<ID>/SEED) -> /verif/seeded/<ID>-12
 cd /verif
 LOG=/tmp/seedr7.log
-declare -A EXTRA=( )
+declare -A EXTRA=( [C08-1]="C08,C09" [C01-1]="C01,C16" )
 for id in "$@"; do
  for n in 1; do
   [ -f /tmp/seed7-$id/SEED/change$n.diff ] || { echo "$id $n: no seed" >> $LOG; continue; }
